@@ -36,7 +36,7 @@ DENSE = dense_plan()
 
 
 def cases(prop, tier, seed):
-    return len(DENSE) + (160 if tier == 'quick' else 6000)
+    return len(DENSE) + (400 if tier == 'quick' else 8000)
 
 
 def rand_shape(r, depth=0):
@@ -76,7 +76,10 @@ def run_case(prop, tier, seed, i):
                 payloads.append((-1, tuple(rand_shape(r) for _ in range(r.randrange(0, 3))),
                                  dict((kk, rand_shape(r)) for kk in r.sample(['k1', 'k2', 'zz'], r.randrange(1, 3)))))
     cfg = {'cut_transfers': mode == 'random' and r.random() < 0.4, 'bursts': mode == 'random' and r.random() < 0.5, 'n': r.choice([2, 3]), 'batch': batch, 'use_batch': r.random() < 0.5, 'journal': r.choice(['memory', 'file']),
-           'steps': 0, 'quiet': False, 'chunk': 65536, 'liveness': True, 'trace_len': 120, 'ext': ['args']}
+           'steps': 0, 'quiet': False, 'chunk': 65536, 'liveness': True, 'trace_len': 120, 'ext': ['args'], 'epipe': 0.25}
+    if mode == 'random':
+        # read-only nodes receive the commands too (their connections are among those that may break midway)
+        cfg['n_ro'] = random.Random(h32('c11ro', seed, i)).choice([0, 0, 1, 2])
     sim = Sim(cfg, rs)
     am = X.ArgsMonitor(sim.mon)
     sim.mon.ext.append(am)
@@ -97,9 +100,15 @@ def run_case(prop, tier, seed, i):
             burst_left = 0
             waiting = []
             for pi, (size, args, kwargs) in enumerate(payloads):
-                p = r.choice(sim.live())
+                forced = None
+                if mode == 'random' and cfg.get('cut_transfers') and r.random() < 0.4:
+                    forced = cut_before_send(sim, r, res)
+                p = forced or r.choice(sim.live())
                 before = sim.uid
                 sim.one_step(('S', p.key, 'kv', 'big', ('$UID',) + tuple(args), kwargs))
+                if forced is not None:
+                    # the leader sends the command (in pieces, if it is big) into a connection whose other end is gone
+                    sim.one_step(('T', forced.key, 0.11))
                 sub = sim.subs.get(100000 + sim.uid) if sim.uid > before else None
                 if sub is None:
                     continue
@@ -148,6 +157,9 @@ def run_case(prop, tier, seed, i):
     res['obs']['chunked_entry_msgs'] += sim.mon.obs.get('chunked_entry_msgs', 0)
     res['obs']['c11_applies'] += sim.mon.obs.get('c11_applies', 0)
     res['obs']['cases_' + mode] += 1
+    res['obs']['send_fails_peer_gone'] += sim.stats.get('send_fails_peer_gone', 0)
+    if cfg.get('n_ro'):
+        res['obs']['cases_with_read_only_nodes'] += 1
     if cfg['journal'] == 'file':
         res['obs']['file_journal_cases'] += 1
     res['obs'] = dict(res['obs'])
@@ -167,6 +179,26 @@ def run_case(prop, tier, seed, i):
         res['sample'] = {'mode': mode, 'unit': unit, 'batch': batch, 'cfg': {k: cfg[k] for k in ('n', 'use_batch', 'journal')},
                          'sizes': [s for s, _, _ in payloads][:16]}
     return res
+
+
+def cut_before_send(sim, r, res):
+    """The far end of the leader's connection to a read-only node goes away just before the leader
+    sends the next command: the leader finds out inside one of its send() calls."""
+    leaders = [p for p in sim.live() if p.voter and p.obj._isLeader()]
+    if not leaders:
+        return None
+    L = leaders[0]
+    cands = [(c, c.side_of(L)) for c in sim.conns.values() if c.side_of(L) is not None and c.open[0] and c.open[1]]
+    if not cands:
+        return None
+    # (only read-only nodes: losing one changes nothing for the voters, the network between them stays healthy)
+    ro = [x for x in cands if getattr(x[0], 'ro', False)]
+    if not ro:
+        return None
+    c, side = r.choice(ro)
+    sim.one_step(('X', c.cid, 1 - side))
+    res['obs']['far_end_gone_before_send' + ('_read_only' if getattr(c, 'ro', False) else '')] += 1
+    return L
 
 
 def cut_a_transfer(sim, r, res):
@@ -190,6 +222,9 @@ def cut_a_transfer(sim, r, res):
             break
         sim.one_step(('D', c.cid, side))
     sim.one_step(('X', c.cid, 1 - side))      # the receiving end goes first: what was still on its way is lost
+    if r.random() < 0.7:
+        # the leader's next heartbeat finds out inside send() (EPIPE), possibly in the middle of a command sent in pieces
+        sim.one_step(('T', L.key, 0.11))
     res['obs']['transfers_cut_midway'] += 1
 
 
